@@ -89,21 +89,22 @@ PROPS["C02"] = dict(
         "fork schedules where electra is reached are out of scope (S has no electra); ELECTRA_FORK_EPOCH is kept at FAR_FUTURE",
     ],
     manifest=dict(
-        level_text="Lean theorems M = S for all inputs (no size bound) for EVERY epoch sub-transition and for the whole epoch transition: "
-                   "phase0 attester statuses + one-pass attestation rewards (rewards_phase0_eq), altair..deneb flag deltas, inactivity, 4-pass "
-                   "ApplyDeltas and target stakes (flagDeltas_altair_eq, inactivity_eq, rewards_altair_eq, currentTargetStake_eq), the whole "
-                   "registry update (registry_updates_eq), justification on the bits byte (justification_eq), slashings and effective balances "
-                   "read from the start-of-epoch snapshot (slashings_snapshot_eq under the proved-preserved invariant WF, "
-                   "effectiveBalance_snapshot_eq), resets, historical accumulators, participation and sync-committee rotation, composed into "
-                   "processEpoch_eq (zrnt's ProcessEpoch = the spec's process_epoch for all five forks on EpochWF states); plus a differential run "
-                   "of the real Go code against the code-shaped model M AND the executable specification S (Go = M = S per line) for every "
-                   "sub-transition, whole ProcessSlots spans incl. several fork boundaries, and the four upgrades, on synthetic states of all "
-                   "five forks under several parameter sets and on states reached by valid chains with blocks",
-        level_note="trusted: Lean kernel, the specification transcription S (its theorem-facing pure form Spec/Pure.lean + Spec/EpochPure.lean is "
-                   "compared with the literal monadic transcription on every evaluated line), the flat exchange format, harness generator; state "
-                   "roots and BLS aggregates are inputs from the Go side; committee resolution of pending attestations, process_slot and the four "
-                   "upgrade_to_* have no separate model and rest on Go = S only; processSlots_eq is proved only as the composition step "
-                   "(processSlots_eq_partial: invariant preservation across slots/upgrades is a hypothesis)",
+        level_text="Lean theorems M = S for all inputs (no size bound), from every epoch sub-transition up to the whole of ProcessSlots: "
+                   "processSlots_eq (common.ProcessSlots = process_slots with the fork upgrades over any number of slots, for every start state "
+                   "satisfying the invariant Q, which process_slot, the whole process_epoch, the slot increment and each upgrade are PROVED to "
+                   "re-establish; Q_genesis_like: genesis-shaped states satisfy it), assembled from processEpoch_eq (all five forks), "
+                   "processSlot_eq, upgrade_{altair,bellatrix,capella,deneb}_eq (incl. TranslateParticipation's bit masks = translate_participation), "
+                   "upgradeMaybe_eq (the if-chain = upgrade at the fork epoch's first slot in fork order, any schedule), rewards_phase0_eq, "
+                   "flagDeltas_altair_eq, inactivity_eq, rewards_altair_eq, currentTargetStake_eq, registry_updates_eq, justification_eq, "
+                   "slashings_snapshot_eq, effectiveBalance_snapshot_eq, resets/historical/participation/syncCommittee_rotation_eq; oracle_links: "
+                   "the executable monadic spec functions return the pure stage results; plus a differential run Go = M = S per line for every "
+                   "sub-transition, ProcessSlots spans incl. several fork boundaries and the upgrades, on synthetic states of all five forks under "
+                   "several parameter sets and on states reached by valid chains with blocks",
+        level_note="trusted: Lean kernel, the specification transcription S, the flat exchange format, harness generator; state roots and BLS "
+                   "aggregates are inputs from the Go side. Still resting on Go = S only: committee resolution of pending attestations "
+                   "(get_attesting_indices feeding ResolvedAtt/FlagAtt; not yet related to C07's committee_eq_spec, a second transcription), and the "
+                   "run-time-only comparison monadic-vs-pure for justification_inputs, process_slashings, the historical accumulators and the "
+                   "composed process_epoch/process_slots (oracle_links proves the other stages)",
         technique="Lean 4 refinement proofs (code-shaped model = spec) + Go/Lean differential correspondence on flat states",
         design_ref="DESIGN.md 5/C02", engine="lean"),
 )
